@@ -7,7 +7,7 @@ for f in sorted(glob.glob('/verif/seeded/*/meta.json')):
     now="; ".join("%s %s"%(c,"DETECTED" if v["exit"]==1 else "silent") for c,v in m.get("checks_run_quick_tier",{}).items())
     rows.append((sid,m.get("needs_to_manifest","").replace("|","\\|"),m.get("first_run","").replace("|","\\|"),now,m.get("existing_suite_passes_with_patch")))
 def rnd(s):
-    return {"":1,"b":2,"c":3,"d":4,"e":5,"f":5,"g":6,"h":6,"i":7,"j":7,"k":8,"l":8,"m":9,"n":9,"o":10,"p":10,"q":11,"r":11}[s[3:]]
+    return {"":1,"b":2,"c":3,"d":4,"e":5,"f":5,"g":6,"h":6,"i":7,"j":7,"k":8,"l":8,"m":9,"n":9,"o":10,"p":10,"q":11,"r":11,"s":12,"t":12}[s[3:]]
 out=open('/verif/seeded/INDEX.md','w')
 out.write("""# Independently written property-breaking changes (`seeded/<id>/`)
 
@@ -40,19 +40,21 @@ Round 10 (`C..o`, `C..p`, twenty changes for ten properties, same brief as round
 Round 11 (`C..q`, `C..r`, seventeen changes for the other ten properties - three sub-agents delivered one change only -, same brief):
 nine detected by the checks as they stood, all eight misses closed afterwards; in the same session C11b was closed in the quick
 tier and C16n by running the relay's own tcp/tls connection factories against a real loopback peer.
+Round 12 (`C..s`, `C..t`, twelve changes for C03 C05 C09 C12 C14 C15, same brief, in the last half hour): eight detected as the
+checks stood, two of the four misses closed (C05t, C09s); C03s and C12t are recorded as gaps.
 
 `silent` marks a check that was run in addition and is not expected to fire (the clause the change
 breaks is decided by the other check listed), or - for C11b until round 11 - the quick tier.
 
 """)
-for r in (1,2,3,4,5,6,7,8,9,10,11):
+for r in (1,2,3,4,5,6,7,8,9,10,11,12):
     out.write("## Round %d\n\n| id | what it needs to manifest | first run | now (quick tier) |\n|---|---|---|---|\n"%r)
     for sid,needs,first,now,suite in rows:
         if rnd(sid)==r:
             out.write("| %s | %s | %s | %s |\n"%(sid,needs,first,now))
     out.write("\n")
-tot={r:[0,0] for r in (1,2,3,4,5,6,7,8,9,10,11)}
+tot={r:[0,0] for r in (1,2,3,4,5,6,7,8,9,10,11,12)}
 for sid,needs,first,now,suite in rows:
     tot[rnd(sid)][0]+=1
     if first.startswith("DETECTED"): tot[rnd(sid)][1]+=1
-out.write("Detected by the checks as they stood / changes: "+", ".join("round %d: %d/%d"%(r,tot[r][1],tot[r][0]) for r in tot)+". Every miss led to a stronger check (see the `first run` column and DESIGN.md section 13); all are detected now by the quick tier except C04m (manifests only during shutdown, outside the properties).\n")
+out.write("Detected by the checks as they stood / changes: "+", ".join("round %d: %d/%d"%(r,tot[r][1],tot[r][0]) for r in tot)+". Every miss led to a stronger check (see the `first run` column and DESIGN.md section 13); all are detected now by the quick tier except C04m (manifests only during shutdown, outside the properties) and two of the last round that were not closed in the time left: C03s (a stalled raw-metric logger wedging the parser after a thousand batches) and C12t (idle period shorter than the refresh period).\n")
